@@ -326,6 +326,7 @@ impl Observer {
                                         _ => kernel::probe("votes_notar"),
                                     }
                                 }
+                                kernel::event(&format!("vote n{from} {} s{} {}", vote_kind(&v), v.slot().inner(), hash.as_ref().map(hx).unwrap_or_default()));
                                 self.votes_by_node[from].push(SeenVote {
                                     at_ms: rec.at_ms,
                                     seq: rec.seq,
@@ -379,6 +380,7 @@ impl Observer {
                                     CertKind::Notar => kernel::probe("certs_notar"),
                                 }
                             }
+                            kernel::event(&format!("cert n{from} {kind:?} s{} valid={valid}", slot.inner()));
                             self.certs.push(SeenCert {
                                 at_ms: rec.at_ms,
                                 seq: rec.seq,
